@@ -45,6 +45,9 @@ pub struct NodeCfg {
     pub api_login_ttl_s: u32,
     pub console_login_ttl_s: u32,
     pub cluster_token: String,
+    /// a node that never gets a Raft leader (node id 2, no auto-init, dead join address): it cannot look a
+    /// token up anywhere but in its own cache
+    pub leaderless: bool,
 }
 
 pub struct Node {
@@ -142,8 +145,9 @@ impl Node {
             .env("RNACOS_HTTP_CONSOLE_PORT", console.to_string())
             .env("RNACOS_SDK_HOST", "127.0.0.1")
             .env("RNACOS_RAFT_NODE_ADDR", format!("127.0.0.1:{}", grpc))
-            .env("RNACOS_RAFT_NODE_ID", "1")
-            .env("RNACOS_RAFT_AUTO_INIT", "true")
+            .env("RNACOS_RAFT_NODE_ID", if cfg.leaderless { "2" } else { "1" })
+            .env("RNACOS_RAFT_AUTO_INIT", if cfg.leaderless { "false" } else { "true" })
+            .env("RNACOS_RAFT_JOIN_ADDR", if cfg.leaderless { "127.0.0.1:9" } else { "" })
             .env("RNACOS_DATA_DIR", dir.join("data").to_string_lossy().to_string())
             .env("RNACOS_ENABLE_OPEN_API_AUTH", "true")
             .env("RNACOS_CONSOLE_ENABLE_CAPTCHA", "false")
@@ -188,6 +192,21 @@ impl Node {
             // stays up but never serves - start another one instead of waiting for the deadline
             if node.log_tail().contains("panicked at") {
                 return Err(format!("server panicked during start-up: {}", node.log_tail()));
+            }
+            if node.cfg.leaderless {
+                // ready = the HTTP listener answers (no login is possible without a leader)
+                if std::net::TcpStream::connect_timeout(&std::net::SocketAddr::from(([127, 0, 0, 1], node.http)), Duration::from_millis(300)).is_ok() {
+                    std::thread::sleep(Duration::from_millis(1200)); // past the 500 ms auto-join attempt
+                    if !node.alive() {
+                        return Err(format!("leaderless server exited: {}", node.log_tail()));
+                    }
+                    return Ok(node);
+                }
+                if Instant::now() > deadline {
+                    return Err(format!("leaderless server not listening after 40 s: {}", node.log_tail()));
+                }
+                std::thread::sleep(Duration::from_millis(150));
+                continue;
             }
             if let Ok(t) = node.api_login(ADMIN_USER, admin_pass()) {
                 if !t.is_empty() && node.console_login(ADMIN_USER, admin_pass()).is_ok() {
